@@ -383,6 +383,18 @@ func suiteRange(o *Out, r *Rng, n int, tier string) {
 					if r.Intn(4) == 0 {
 						g2.exE = !g2.exE
 					}
+				} else if g.end == nil && r.Intn(3) != 0 {
+					// an open-ended receiver: its successor is the open-ended range shifted by size — and a *bounded* range
+					// starting there is a near miss, not the successor
+					g2 = rng4{start: g.start + sz, exS: g.exS, exE: g.exE}
+					if r.Intn(2) == 0 {
+						e2 := g2.start + 1 + uint64(r.Intn(50))
+						g2.end = &e2
+						o.Stat("range.isnext.bounded_candidate_for_open_receiver", 1)
+					}
+					if r.Intn(4) == 0 {
+						g2.exS = !g2.exS
+					}
 				} else {
 					g2 = genRange(r)
 				}
